@@ -17,6 +17,12 @@ RULE = ("random MJCF models straddling MJX's feature lattice (tree of 2-5 bodies
         "plus a 'gate' profile injecting one unsupported feature) x random states/controls/applied forces; plus a 'capcap' "
         "profile: free capsules placed pairwise in penetrating CLIPPED segment-segment configurations (closest points of the "
         "axis lines outside a segment: cap-side, cap-cap, non-crossing). "
+        "Every non-gate model additionally receives a want-list from an agenda that rotates over all feature classes of "
+        "doc/mjx.rst Feature Parity (MJX-JAX column) and the option flag list that the sandbox can generate (joint / geom / "
+        "transmission / dyn / gain / bias / equality incl. inactive / tendon + wrap kinds / condim / solver / sensor kinds / "
+        "flags, gravcomp x actuatorgravcomp x joint actuatorfrcrange x actuator forcerange/ctrlrange 'clamp stacks'); the run is "
+        "inconclusive if a class was never generated or a listed clamp / row interaction never ENGAGED in a state (counters "
+        "feature[..], engaged[..]). "
         "distinct = (profile, integrator, cone, solver, sorted feature-tag set bucket, #active contacts bucket, "
         "#constraint rows bucket); non-trivial = put_model accepted it and it has nv>0")
 ASSUMPTIONS = [
